@@ -50,6 +50,9 @@ FW_STATE = clause(FW + '.__init__', 'post:state', ['C04'], 'P',
                   'the forger given, _transformed is False, and the instance dict holds neither __signature__ nor _sigtools__forger')
 FW_FORGER = clause(FW + '._sigtools__forger', 'post:delegates', ['C04'], 'P', '= the declared forger called with obj=<the wrapped object>')
 FW_CALL = clause(FW + '.__call__', 'post:transparent', ['C04', 'C13'], 'P')
+FW_GET = clause(FW + '.__get__', 'post:rebinds_the_declaration', ['C04'], 'P',
+                'descriptor access returns a NEW _ForgerWrapper around safe_get(<transformed wrapped object>, instance, owner) that carries the '
+                'DECLARED forger (so the forger later sees the bound object), and leaves the declaration itself unchanged but for the one-off transform')
 
 
 class Recorder(SymCallable):
@@ -188,6 +191,34 @@ def make_runner(mode, cls='_SimpleWrapped', nargs=1, nkeys=1, nfuncs=2, depth=2,
                 r.outcome, r.value = 'return', w
             except PyExc as e:
                 r.outcome, r.exc = 'raise', e
+            # ---- descriptor access: cls.attr / instance.attr on the declaration
+            transformed = SymObj('transformed_obj', 'function', slots={
+                '__wrapped__': Slot(z3.Bool('inst_tr_wrapped'), False, Opaque('what the transformed object wraps'), None)})
+            bound = SymObj('bound_obj', 'method', slots={
+                '__signature__': Slot(z3.Bool('inst_bound_signature'), False, Opaque('a signature'), None),
+                '_sigtools__forger': Slot(z3.Bool('inst_bound_forger'), False, Opaque('a forger attribute'), None),
+                '__wrapped__': Slot(z3.Bool('inst_bound_wrapped'), False, Opaque('what bound wraps'), None)})
+            inst, owner = SymRef(z3.Const('instance', RefS), 'instance'), Opaque('owner')
+            env.update(transformed=transformed, bound=bound, get_inst=inst, get_owner=owner, tr_calls=[], sg_calls=[])
+
+            def tr(interp_, clo, a, kw):
+                env['tr_calls'].append(list(a))
+                return transformed
+
+            def sg(interp_, clo, a, kw):
+                env['sg_calls'].append(list(a))
+                return bound
+            I.call_hooks['specifiers:_transform'] = tr
+            I.call_hooks['_util:safe_get'] = sg
+            was_transformed = w._d.get('_transformed')
+            env['was_transformed'] = was_transformed
+            try:
+                env['got'] = ('return', I.call(I.getattr_(w, '__get__'), [inst, owner], []))
+            except PyExc as e:
+                env['got'] = ('raise', e)
+            finally:
+                I.call_hooks.pop('specifiers:_transform', None)
+                I.call_hooks.pop('_util:safe_get', None)
         elif mode == 'combination':
             fs = [Recorder('f%d' % i) for i in range(nfuncs)]
             env['fs'] = fs
@@ -320,6 +351,18 @@ def vcs(env, want):
             else:
                 ok = ok and bool(raised) and r.exc is raised[0][2]
             out.append(VC(FW_FORGER.full, [], z3.BoolVal(bool(ok)), FW_FORGER.props))
+        if on(FW_GET) and 'got' in env:
+            oc, v = env['got']
+            w = env['w']
+            ok = oc == 'return' and isinstance(v, Inst) and v._cls is w._cls and v is not w
+            if ok:
+                ok = (v._d.get('__wrapped__') is env['bound'] and v._d.get('_signature_forger') is env['forger'] and
+                      w._d.get('_signature_forger') is env['forger'] and w._d.get('_transformed') is True and
+                      len(env['tr_calls']) == (0 if env['was_transformed'] else 1) and
+                      len(env['sg_calls']) == 1 and env['sg_calls'][0][1] is env['get_inst'] and env['sg_calls'][0][2] is env['get_owner'] and
+                      env['sg_calls'][0][0] is w._d.get('__wrapped__') and
+                      w._d.get('__wrapped__') is (env['obj'] if env['was_transformed'] else env['transformed']))
+            out.append(VC(FW_GET.full, [], z3.BoolVal(bool(ok)), FW_GET.props))
     elif mode == 'combination':
         fs = env['fs']
         if on(K_FLAT):
